@@ -586,9 +586,21 @@ fn chain_cmd(inp: &Input) {
             // ---- filters: wait for the builder's own progress condition, then check
             let store_db = n.shared.store();
             let mut ready = false;
+            let (mut built_last, mut progress_round, mut stalled) = (usize::MAX, 0u64, false);
             for round in 0..36000u64 {
-                if main.iter().all(|b| store_db.get_block_filter_hash(&blocks[b].view.hash()).is_some()) {
+                let built = main.iter().filter(|b| store_db.get_block_filter_hash(&blocks[*b].view.hash()).is_some()).count();
+                if built == main.len() {
                     ready = true;
+                    break;
+                }
+                if built != built_last {
+                    built_last = built;
+                    progress_round = round;
+                }
+                // no progress for 60 s of a quiescent chain although the builder was notified again and again (>= 25 times):
+                // this is no longer slowness - the builder does not cover the main chain
+                if round - progress_round >= 12000 && (round - progress_round) / 400 >= 25 {
+                    stalled = true;
                     break;
                 }
                 // the builder marks the notification channel as seen AFTER a build: a block that arrived while the
@@ -599,6 +611,11 @@ fn chain_cmd(inp: &Input) {
                     st.renotified += 1;
                 }
                 std::thread::sleep(std::time::Duration::from_millis(5));
+            }
+            if stalled {
+                let missing: Vec<usize> = main.iter().filter(|b| store_db.get_block_filter_hash(&blocks[*b].view.hash()).is_none()).cloned().collect();
+                report("filter-never-built", si, format!("main-chain blocks {:?} have no filter although the chain is quiescent and the builder was notified 25 times without any progress in 60 s", missing), &mut st);
+                break 'hist; // every further history would stall the same way
             }
             if !ready {
                 tool_errors.push(format!("hist {} step {}: the filter builder did not cover the main chain within 180 s", hist.id, si));
